@@ -34,7 +34,7 @@ func BetaInc(x, a, b float64) float64 {
 	//
 	//  d_{2m+1} = -(a+m)(a+b+m)x/((a+2m)(a+2m+1))
 	//  d_{2m}   = m(b-m)x/((a+2m-1)(a+2m))
-	if x < 0 || x > 1 {
+	if x < 0 || x > 1 || math.IsNaN(x) {
 		return math.NaN()
 	}
 	bt := 0.0
